@@ -1,0 +1,220 @@
+//go:build verif
+
+package fhirpath
+
+// Node-level tracing for conformance checking (build tag verif only). When the environment variable
+// VERIF_NODETRACE names a file, every node of every expression compiled by Compile is wrapped, and each node
+// evaluation appends a begin and an end event (NDJSON) to that file. The events of one evaluation are buffered
+// and written as one contiguous block when its outermost node returns, so evaluations running in several
+// goroutines do not interleave in the file.
+
+import (
+	"encoding/json"
+	"fmt"
+	"hash/fnv"
+	"os"
+	"reflect"
+	"runtime"
+	"strconv"
+	"strings"
+	"sync"
+
+	"github.com/verily-src/fhirpath-go/fhirpath/internal/expr"
+	"github.com/verily-src/fhirpath-go/fhirpath/internal/parser"
+	"github.com/verily-src/fhirpath-go/fhirpath/system"
+	"google.golang.org/protobuf/proto"
+)
+
+var verifTrace struct {
+	sync.Mutex
+	file  *os.File
+	evals map[uintptr]*verifEval
+	seq   int
+}
+
+type verifEval struct {
+	id    int
+	depth int
+	ptrs  map[any]int
+	buf   []byte
+}
+
+func init() {
+	path := os.Getenv("VERIF_NODETRACE")
+	if path == "" {
+		return
+	}
+	f, err := os.OpenFile(path, os.O_APPEND|os.O_CREATE|os.O_WRONLY, 0o644)
+	if err != nil {
+		panic(err)
+	}
+	verifTrace.file = f
+	verifTrace.evals = map[uintptr]*verifEval{}
+}
+
+func verifVisitor(v *parser.FHIRPathVisitor) {
+	if verifTrace.file != nil {
+		v.Transform = func(e expr.Expression) expr.Expression { return &verifNode{inner: e} }
+	}
+}
+
+type verifNode struct {
+	inner expr.Expression
+}
+
+func verifDescribe(e expr.Expression) (kind, param string) {
+	switch n := e.(type) {
+	case *expr.ExpressionSequence:
+		return "Sequence", strconv.Itoa(len(n.Expressions))
+	case *expr.IdentityExpression:
+		return "Identity", ""
+	case *expr.FieldExpression:
+		return "Field", n.FieldName
+	case *expr.TypeExpression:
+		return "Type", n.Type
+	case *expr.LiteralExpression:
+		return "Literal", ""
+	case *expr.IndexExpression:
+		return "Index", ""
+	case *expr.EqualityExpression:
+		if n.Not {
+			return "Equality", "!="
+		}
+		return "Equality", "="
+	case *expr.FunctionExpression:
+		name := runtime.FuncForPC(reflect.ValueOf(n.Fn).Pointer()).Name()
+		if !strings.Contains(name, "/funcs/impl.") || strings.Contains(name[strings.LastIndex(name, "/"):], ".func") {
+			return "Function", "custom"
+		}
+		return "Function", name[strings.LastIndex(name, ".")+1:]
+	case *expr.IsExpression:
+		return "Is", ""
+	case *expr.AsExpression:
+		return "As", ""
+	case *expr.BooleanExpression:
+		return "Boolean", string(n.Op)
+	case *expr.ComparisonExpression:
+		return "Comparison", string(n.Op)
+	case *expr.ArithmeticExpression:
+		return "Arithmetic", ""
+	case *expr.ConcatExpression:
+		return "Concat", ""
+	case *expr.ExternalConstantExpression:
+		return "Constant", n.Identifier
+	case *expr.NegationExpression:
+		return "Negation", ""
+	}
+	return fmt.Sprintf("%T", e), ""
+}
+
+// verifItems names every item of a collection (FHIR messages by identity within the evaluation, System values by
+// type and value) and hashes the content of the whole collection.
+func (ev *verifEval) verifItems(c system.Collection) ([]string, string) {
+	ids := make([]string, 0, len(c))
+	h := fnv.New64a()
+	for _, it := range c {
+		switch v := it.(type) {
+		case nil:
+			ids = append(ids, "nil")
+		case proto.Message:
+			rv := reflect.ValueOf(v)
+			if rv.Kind() == reflect.Ptr && rv.IsNil() {
+				ids = append(ids, "nil")
+				continue
+			}
+			n, ok := ev.ptrs[it]
+			if !ok {
+				n = len(ev.ptrs) + 1
+				ev.ptrs[it] = n
+			}
+			ids = append(ids, "m"+strconv.Itoa(n))
+			if b, err := (proto.MarshalOptions{Deterministic: true}).Marshal(v); err == nil {
+				h.Write(b)
+			}
+		default:
+			s := fmt.Sprintf("%T:%v", it, it)
+			if len(s) > 60 {
+				g := fnv.New64a()
+				g.Write([]byte(s))
+				s = s[:40] + "#" + strconv.FormatUint(g.Sum64(), 36)
+			}
+			ids = append(ids, s)
+			h.Write([]byte(s))
+		}
+		h.Write([]byte{0})
+	}
+	return ids, strconv.FormatUint(h.Sum64(), 36)
+}
+
+// verifClass is the operand class of three-valued logic: Empty, True, False, a Single other item, or Many items.
+func verifClass(c system.Collection) string {
+	switch {
+	case len(c) == 0:
+		return "E"
+	case len(c) > 1:
+		return "M"
+	}
+	if v, err := system.From(c[0]); err == nil {
+		if b, ok := v.(system.Boolean); ok {
+			if b {
+				return "T"
+			}
+			return "F"
+		}
+	}
+	return "S"
+}
+
+func (ev *verifEval) emit(rec map[string]any) {
+	b, _ := json.Marshal(rec)
+	ev.buf = append(append(ev.buf, b...), '\n')
+}
+
+func (n *verifNode) Evaluate(ctx *expr.Context, input system.Collection) (system.Collection, error) {
+	key := reflect.ValueOf(ctx.ExternalConstants).Pointer()
+	verifTrace.Lock()
+	ev := verifTrace.evals[key]
+	if ev == nil {
+		verifTrace.seq++
+		ev = &verifEval{id: verifTrace.seq, ptrs: map[any]int{}}
+		verifTrace.evals[key] = ev
+	}
+	verifTrace.Unlock()
+	// one evaluation runs in one goroutine: its record needs no lock
+	ev.depth++
+	depth := ev.depth
+	kind, param := verifDescribe(n.inner)
+	in, inh := ev.verifItems(input)
+	ev.emit(map[string]any{"e": "B", "ev": ev.id, "d": depth, "k": kind, "p": param, "now": strconv.FormatInt(ctx.Now.UnixNano(), 10), "in": in, "inh": inh})
+	defer func() {
+		if r := recover(); r != nil {
+			verifTrace.Lock()
+			delete(verifTrace.evals, key)
+			verifTrace.Unlock()
+			panic(r)
+		}
+	}()
+	out, err := n.inner.Evaluate(ctx, input)
+	ina, inha := ev.verifItems(input)
+	rec := map[string]any{"e": "E", "ev": ev.id, "d": depth, "k": kind, "ok": err == nil, "ina": ina, "inha": inha, "out": []string{}, "cls": "E", "hi": false, "iv": 0}
+	if err == nil {
+		rec["out"], _ = ev.verifItems(out)
+		rec["cls"] = verifClass(out)
+		if len(out) == 1 {
+			if v, e2 := system.From(out[0]); e2 == nil {
+				if i, ok := v.(system.Integer); ok {
+					rec["hi"], rec["iv"] = true, int(i)
+				}
+			}
+		}
+	}
+	ev.emit(rec)
+	ev.depth--
+	if ev.depth == 0 {
+		verifTrace.Lock()
+		delete(verifTrace.evals, key)
+		verifTrace.file.Write(ev.buf)
+		verifTrace.Unlock()
+	}
+	return out, err
+}
